@@ -1164,6 +1164,119 @@ func mainTables() {
 	emit("Definition gen_repl_resets : list string := %s.\n\n", coqStrList(rs))
 }
 
+// ---------------------------------------------------------------- the published grammar (grammer.txt, English half)
+func docTables() {
+	b, err := os.ReadFile(filepath.Join(root, "grammer.txt"))
+	if err != nil {
+		emit("Definition gen_doc_ladder : list (string * list string * string) := [(\"extraction_failed:grammer.txt\", [], \"\")].\n\n")
+		return
+	}
+	text := string(b)
+	// the file has an English and a Bangla half with the same rules: keep the first
+	if i := strings.Index(text, "program"); i >= 0 {
+		if j := strings.Index(text[i+7:], "program "); j > 0 {
+			text = text[:i+7+j]
+		}
+	}
+	// rule lines:  name → operand ( ( "op" | "op" ) operand )* ;   (one level of the ladder each)
+	type rule struct {
+		name, operand string
+		ops           []string
+	}
+	var rules []rule
+	for _, ln := range strings.Split(text, "\n") {
+		f := strings.Fields(ln)
+		if len(f) < 6 || f[1] != "→" || f[len(f)-1] != ";" || f[len(f)-2] != ")*" {
+			continue
+		}
+		r := rule{name: f[0], operand: f[2]}
+		for _, w := range f[3 : len(f)-2] {
+			if strings.HasPrefix(w, "\"") && strings.HasSuffix(w, "\"") && len(w) > 2 {
+				r.ops = append(r.ops, w[1:len(w)-1])
+			}
+		}
+		last := f[len(f)-3]
+		if last != r.operand || len(r.ops) == 0 {
+			continue
+		}
+		rules = append(rules, r)
+	}
+	// keep the chain that starts at the rule "assignment" falls through to ("logic_or") and follows operands
+	byName := map[string]rule{}
+	for _, r := range rules {
+		byName[r.name] = r
+	}
+	emit("Definition gen_doc_ladder : list (string * list string * string) := [")
+	cur := "logic_or"
+	first := true
+	for steps := 0; steps < 40; steps++ {
+		r, ok := byName[cur]
+		if !ok {
+			break
+		}
+		if !first {
+			emit("; ")
+		}
+		first = false
+		emit("(%s, %s, %s)", coqStr(r.name), coqStrList(r.ops), coqStr(r.operand))
+		cur = r.operand
+	}
+	emit("].\n")
+	// the unary rule:  unary → ( "!" | "-" | "~" ) unary | call ;
+	var uops []string
+	lines := strings.Split(text, "\n")
+	for i, ln := range lines {
+		f := strings.Fields(ln)
+		if len(f) > 2 && f[0] == "unary" && f[1] == "→" {
+			for _, w := range f[2:] {
+				if strings.HasPrefix(w, "\"") && strings.HasSuffix(w, "\"") && len(w) > 2 {
+					uops = append(uops, w[1:len(w)-1])
+				}
+			}
+			if i+1 < len(lines) && strings.Contains(lines[i+1], "| call") {
+				uops = append(uops, "->call")
+			}
+		}
+	}
+	emit("Definition gen_doc_unary : list string := %s.\n\n", coqStrList(uops))
+	// README.md keyword table: rows  | `spelling` | description |  under the header  | Keyword | ... |
+	var dk [][]rune
+	if rb, err := os.ReadFile(filepath.Join(root, "README.md")); err == nil {
+		in := false
+		for _, ln := range strings.Split(string(rb), "\n") {
+			t := strings.TrimSpace(ln)
+			if strings.HasPrefix(t, "| Keyword") {
+				in = true
+				continue
+			}
+			if in {
+				if !strings.HasPrefix(t, "|") {
+					in = false
+					continue
+				}
+				a := strings.Index(t, "`")
+				if a < 0 {
+					continue
+				}
+				b := strings.Index(t[a+1:], "`")
+				if b < 0 {
+					continue
+				}
+				dk = append(dk, []rune(t[a+1:a+1+b]))
+			}
+		}
+	}
+	sort.Slice(dk, func(i, j int) bool { return lessRunes(dk[i], dk[j]) })
+	emit("Definition gen_doc_keywords : list (list N) := [")
+	for i, k := range dk {
+		if i > 0 {
+			emit("; ")
+		}
+		emit("%s", coqCps(k))
+	}
+	emit("].\n\n")
+}
+
 func main() {
 	if len(os.Args) < 2 {
 		fmt.Fprintln(os.Stderr, "usage: gotrans <repo root>")
@@ -1178,5 +1291,6 @@ func main() {
 	parserTables()
 	interpreterTables()
 	mainTables()
+	docTables()
 	fmt.Print(out.String())
 }
